@@ -89,6 +89,10 @@ def run (α : Type) [Scalar α] [Codec α] (op : String) (c : Ctx) : Option (Rd 
       let n ← Rd.nat c
       let groups ← Rd.list c (Rd.list c (Rd.nat c))
       pure (Out.bool (CP.groupsPartition n groups))
+  | "tets.positive" => some do
+      -- in: tets ; out: CPH.posTetsCheck (use Q mode: hypothesis of cp_*_lebesgue, decided exactly)
+      let Ts : List (Tet α) ← Rd.list c (Rd.tet c)
+      pure (Out.bool (CPH.posTetsCheck Ts))
   | _ => none
 
 end OpsC01
